@@ -693,20 +693,342 @@ func c13Trailing(c *vf.Ctx) {
 	c.Add("trailing_cases", n)
 }
 
+// c13UnalignedCase: k lead bits, the bytes of x through the byte-string entry point, 8-k tail bits. The stream is built by
+// the reference (bit packer + escaper); the reader must return lead, x and tail, and its position counters must equal those
+// of a second reader that takes the same bits one Read(8) at a time.
+func c13UnalignedCase(c *vf.Ctx, k int, lead uint, x []byte) {
+	var rb ebspref.Bits
+	tail := uint(0x55) & bits.Mask(8-k)
+	if k == 0 {
+		tail = 0
+	}
+	rb.Put(uint64(lead), k)
+	for _, b := range x {
+		rb.Put(uint64(b), 8)
+	}
+	if k > 0 {
+		rb.Put(uint64(tail), 8-k)
+	}
+	raw := rb.Bytes(false)
+	esc := ebspref.Escape(raw)
+	// writer side: the same bits through the real writer give the reference escaping
+	var buf bytes.Buffer
+	w := bits.NewEBSPWriter(&buf)
+	w.Write(lead, k)
+	for _, b := range x {
+		w.Write(uint(b), 8)
+	}
+	if k > 0 {
+		w.Write(tail, 8-k)
+	}
+	det := func() interface{} {
+		return map[string]interface{}{"kind": "unaligned", "lead_bits": k, "lead": lead, "raw": vf.Hex(x), "esc": vf.Hex(esc)}
+	}
+	if !bytes.Equal(buf.Bytes(), esc) || w.AccError() != nil {
+		c.Fail("ebsp-writer-unaligned", "EBSPWriter output of unaligned bytes == minimal escaping of the packed bits", det())
+		return
+	}
+	r := bits.NewEBSPReader(bytes.NewReader(esc))
+	r2 := bits.NewEBSPReader(bytes.NewReader(esc))
+	gl := r.Read(k)
+	_ = r2.Read(k)
+	got := r.ReadBytes(len(x))
+	for range x {
+		_ = r2.Read(8)
+	}
+	okPos := r.NrBytesRead() == r2.NrBytesRead() && r.NrBitsRead() == r2.NrBitsRead()
+	var gt uint
+	if k > 0 {
+		gt = r.Read(8 - k)
+	}
+	if gl != lead || !bytes.Equal(got, x) || gt != tail || r.AccError() != nil || !okPos || r.NrBytesRead() != len(esc) {
+		c.Fail("ebsp-reader-unaligned-bytes", "EBSPReader.ReadBytes returns exactly the bytes written at any bit alignment, with the position counters of bit-wise reading", map[string]interface{}{"kind": "unaligned", "lead_bits": k, "lead": lead, "raw": vf.Hex(x), "esc": vf.Hex(esc), "got": vf.Hex(got), "got_lead": gl, "got_tail": gt, "pos_ok": okPos})
+	}
+}
+
+// c13Unaligned: all strings over {00,03,80,ff} up to maxLen (>= 9, so that a reader that fetches 8 bytes at a time is
+// exercised with a remainder) x every bit alignment 0..7 x lead bit patterns {all ones, all zeros}.
+func c13Unaligned(c *vf.Ctx, maxLen int) {
+	alpha := []byte{0x00, 0x03, 0x80, 0xff}
+	type shard struct{ a, b int }
+	var shards []shard
+	for a := range alpha {
+		for b := range alpha {
+			shards = append(shards, shard{a, b})
+		}
+	}
+	c.Parallel(len(shards), func(si int) {
+		var n int64
+		var rec func(x []byte)
+		rec = func(x []byte) {
+			for k := 0; k < 8; k++ {
+				for _, lead := range []uint{bits.Mask(k), 0} {
+					if k == 0 && lead == 0 && len(x) > 0 {
+						continue // aligned: one case
+					}
+					c13UnalignedCase(c, k, lead, x)
+					n++
+				}
+			}
+			if len(x) == maxLen {
+				return
+			}
+			for _, a := range alpha {
+				rec(append(x, a))
+			}
+		}
+		if si == 0 {
+			for _, a := range alpha {
+				x := []byte{a}
+				for k := 0; k < 8; k++ {
+					c13UnalignedCase(c, k, bits.Mask(k), x)
+					n++
+				}
+			}
+		}
+		rec([]byte{alpha[shards[si].a], alpha[shards[si].b]})
+		c.Evals.Add(n)
+		c.DistinctN.Add(n)
+		c.Add("unaligned_byte_string_cases", n)
+	})
+	c.Sample(map[string]interface{}{"kind": "unaligned", "lead_bits": 3, "lead": 7, "raw": "000003ff8000000380"})
+}
+
+// ---- byte-aligned fixed-width values: FixedSliceWriter / ByteWriter -> FixedSliceReader / bits.Reader
+
+type fwOp struct {
+	K string `json:"k"` // u8 u16 i16 u24 u32 i32 u48 u64 i64 bytes str strz zero
+	V uint64 `json:"v"`
+}
+
+func fwWidth(k string) int {
+	switch k {
+	case "u8":
+		return 1
+	case "u16", "i16":
+		return 2
+	case "u24":
+		return 3
+	case "u32", "i32":
+		return 4
+	case "u48":
+		return 6
+	case "u64", "i64":
+		return 8
+	}
+	return 0
+}
+
+func c13FixedWidthSeq(c *vf.Ctx, ops []fwOp) {
+	var ref []byte
+	put := func(v uint64, n int) {
+		for i := n - 1; i >= 0; i-- {
+			ref = append(ref, byte(v>>(8*uint(i))))
+		}
+	}
+	sw := bits.NewFixedSliceWriter(64)
+	var bb bytes.Buffer
+	bw := bits.NewByteWriter(&bb)
+	bwOK := true // ByteWriter has a subset of the operations
+	for _, op := range ops {
+		switch op.K {
+		case "u8":
+			sw.WriteUint8(byte(op.V))
+			bw.WriteUint8(byte(op.V))
+		case "u16":
+			sw.WriteUint16(uint16(op.V))
+			bw.WriteUint16(uint16(op.V))
+		case "i16":
+			sw.WriteInt16(int16(op.V))
+			bw.WriteUint16(uint16(op.V))
+		case "u24":
+			sw.WriteUint24(uint32(op.V) & 0xffffff)
+			bw.WriteUint8(byte(op.V >> 16))
+			bw.WriteUint16(uint16(op.V))
+		case "u32":
+			sw.WriteUint32(uint32(op.V))
+			bw.WriteUint32(uint32(op.V))
+		case "i32":
+			sw.WriteInt32(int32(op.V))
+			bw.WriteUint32(uint32(op.V))
+		case "u48":
+			sw.WriteUint48(op.V & 0xffffffffffff)
+			bw.WriteUint48(op.V & 0xffffffffffff)
+		case "u64":
+			sw.WriteUint64(op.V)
+			bw.WriteUint64(op.V)
+		case "i64":
+			sw.WriteInt64(int64(op.V))
+			bw.WriteUint64(op.V)
+		case "bytes":
+			x := []byte{byte(op.V), byte(op.V >> 8), 0}
+			sw.WriteBytes(x)
+			bw.WriteSlice(x)
+			ref = append(ref, x...)
+		case "str", "strz":
+			str := string([]byte{'a' + byte(op.V%3), 'b'})
+			sw.WriteString(str, op.K == "strz")
+			bw.WriteSlice([]byte(str))
+			ref = append(ref, str...)
+			if op.K == "strz" {
+				bw.WriteUint8(0)
+				ref = append(ref, 0)
+			}
+		case "zero":
+			sw.WriteZeroBytes(int(op.V % 4))
+			bw.WriteSlice(make([]byte, op.V%4))
+			ref = append(ref, make([]byte, op.V%4)...)
+		}
+		if n := fwWidth(op.K); n > 0 {
+			put(op.V, n)
+		}
+	}
+	det := func(extra string) interface{} {
+		return map[string]interface{}{"kind": "fixedwidth", "ops": ops, "detail": extra, "ref": vf.Hex(ref), "slicewriter": vf.Hex(sw.Bytes()), "bytewriter": vf.Hex(bb.Bytes())}
+	}
+	if sw.AccError() != nil || !bytes.Equal(sw.Bytes(), ref) || sw.Len() != len(ref) || sw.Offset() != len(ref) {
+		c.Fail("fixedwidth-slicewriter", "FixedSliceWriter writes fixed-width values big-endian at the running offset", det(fmt.Sprint(sw.AccError())))
+		return
+	}
+	if bwOK && (bw.AccError() != nil || !bytes.Equal(bb.Bytes(), ref)) {
+		c.Fail("fixedwidth-bytewriter", "ByteWriter writes the same bytes as FixedSliceWriter", det(fmt.Sprint(bw.AccError())))
+		return
+	}
+	// read back: FixedSliceReader with the matching calls, bits.Reader with Read(8*n) / ReadSigned
+	sr := bits.NewFixedSliceReader(ref)
+	br := bits.NewReader(bytes.NewReader(ref))
+	for i, op := range ops {
+		n := fwWidth(op.K)
+		mask := ^uint64(0)
+		if n > 0 && n < 8 {
+			mask = 1<<(8*uint(n)) - 1
+		}
+		want := op.V & mask
+		var got uint64
+		ok := true
+		switch op.K {
+		case "u8":
+			got = uint64(sr.ReadUint8())
+		case "u16":
+			got = uint64(sr.ReadUint16())
+		case "i16":
+			v := sr.ReadInt16()
+			got, ok = uint64(uint16(v)), int64(v) == int64(int16(op.V))
+		case "u24":
+			got = uint64(sr.ReadUint24())
+		case "u32":
+			got = uint64(sr.ReadUint32())
+		case "i32":
+			v := sr.ReadInt32()
+			got, ok = uint64(uint32(v)), int64(v) == int64(int32(op.V))
+		case "u48":
+			got = uint64(sr.ReadUint16())<<32 | uint64(sr.ReadUint32())
+		case "u64":
+			got = sr.ReadUint64()
+		case "i64":
+			v := sr.ReadInt64()
+			got, ok = uint64(v), v == int64(op.V)
+		case "bytes":
+			x := sr.ReadBytes(3)
+			ok = bytes.Equal(x, []byte{byte(op.V), byte(op.V >> 8), 0})
+			got, want = 0, 0
+		case "str":
+			ok = sr.ReadFixedLengthString(2) == string([]byte{'a' + byte(op.V%3), 'b'})
+			got, want = 0, 0
+		case "strz":
+			ok = sr.ReadZeroTerminatedString(10) == string([]byte{'a' + byte(op.V%3), 'b'})
+			got, want = 0, 0
+		case "zero":
+			sr.SkipBytes(int(op.V % 4))
+			got, want = 0, 0
+		}
+		if !ok || got != want || sr.AccError() != nil {
+			c.Fail("fixedwidth-slicereader-"+op.K, "FixedSliceReader reads back the value written", det(fmt.Sprintf("op %d: got %#x want %#x err %v", i, got, want, sr.AccError())))
+			return
+		}
+		// bits.Reader over the same bytes
+		switch {
+		case n > 0 && n <= 4:
+			g := uint64(br.Read(8 * n))
+			if g != want {
+				c.Fail("fixedwidth-bitreader", "bits.Reader.Read(8n) returns the big-endian value", det(fmt.Sprintf("op %d: got %#x want %#x", i, g, want)))
+				return
+			}
+		case n > 4:
+			hi := uint64(br.Read(8 * (n - 4)))
+			lo := uint64(br.Read(32))
+			if hi<<32|lo != want {
+				c.Fail("fixedwidth-bitreader", "bits.Reader.Read returns the big-endian value in two parts", det(fmt.Sprintf("op %d", i)))
+				return
+			}
+		default:
+			skip := map[string]int{"bytes": 3, "str": 2, "strz": 3}[op.K]
+			if op.K == "zero" {
+				skip = int(op.V % 4)
+			}
+			for k := 0; k < skip; k++ {
+				_ = br.Read(8)
+			}
+		}
+	}
+	if sr.NrRemainingBytes() != 0 || sr.GetPos() != len(ref) || br.NrBytesRead() != len(ref) || br.AccError() != nil {
+		c.Fail("fixedwidth-position", "readers end exactly at the end of what was written", det(fmt.Sprintf("sr pos %d remaining %d, br %d of %d", sr.GetPos(), sr.NrRemainingBytes(), br.NrBytesRead(), len(ref))))
+	}
+}
+
+func c13FixedWidth(c *vf.Ctx, depth int) {
+	var alpha []fwOp
+	for _, k := range []string{"u8", "u16", "i16", "u24", "u32", "i32", "u48", "u64", "i64"} {
+		n := uint(8 * fwWidth(k))
+		max := ^uint64(0)
+		if n < 64 {
+			max = 1<<n - 1
+		}
+		for _, v := range []uint64{0, 1, max, max - 1, 1 << (n - 1), 1<<(n-1) - 1, 0x0102030405060708 & max, 0xa55aa55aa55aa55a & max} {
+			alpha = append(alpha, fwOp{k, v})
+		}
+	}
+	alpha = append(alpha, fwOp{"bytes", 0x1234}, fwOp{"str", 1}, fwOp{"strz", 2}, fwOp{"zero", 0}, fwOp{"zero", 3})
+	var n int64
+	seq := make([]fwOp, 0, depth)
+	var rec func()
+	rec = func() {
+		if len(seq) > 0 {
+			c13FixedWidthSeq(c, seq)
+			n++
+		}
+		if len(seq) == depth {
+			return
+		}
+		for _, o := range alpha {
+			seq = append(seq, o)
+			rec()
+			seq = seq[:len(seq)-1]
+		}
+	}
+	rec()
+	c.Evals.Add(n)
+	c.DistinctN.Add(n)
+	c.Add("fixed_width_byte_sequences", n)
+	c.Sample(map[string]interface{}{"kind": "fixedwidth", "ops": []fwOp{{"u24", 0x800000}, {"i64", ^uint64(0)}, {"strz", 2}}})
+}
+
 func runC13(c *vf.Ctx) {
-	c.Rule = "(a) explicit-state BFS to a fixpoint over product states (EBSPWriter private (n,v,nr0) x reference escaper) with transitions Write(v,w) for all w in 1..8 and all 2^w values plus WriteRbspTrailingBits/StuffByteWithZeros, and (EBSPReader private (n,v,zeroCount) x reference unescaper) with transitions Read(w), w in 1..8, next payload byte over all 256 values; on every transition emitted bytes / returned bits / position counters are compared with the reference; plus all byte strings over {00,01,02,03,04} up to the length bound through writer and reader and against the standard's three clauses. (b) all sequences of value-coder operations (fixed width 1..32 x boundary values, flag, ue(v), se(v), SEI ff-coding) up to the depth bound x 8 bit misalignments, written with EBSPWriter/bits.Writer/FixedSliceWriter and read back with EBSPReader/bits.Reader. Distinct = distinct product states + distinct strings/sequences (duplicate-free enumerators)."
+	c.Rule = "(a) explicit-state BFS to a fixpoint over product states (EBSPWriter private (n,v,nr0) x reference escaper) with transitions Write(v,w) for all w in 1..8 and all 2^w values plus WriteRbspTrailingBits/StuffByteWithZeros, and (EBSPReader private (n,v,zeroCount) x reference unescaper) with transitions Read(w), w in 1..8, next payload byte over all 256 values; on every transition emitted bytes / returned bits / position counters are compared with the reference; plus all byte strings over {00,01,02,03,04} up to the length bound through writer and reader and against the standard's three clauses, and all byte strings over {00,03,80,ff} up to the length bound + 1 written and read through the byte-string entry points (Write(b,8) / ReadBytes) at every bit alignment 0..7. (b) all sequences of value-coder operations (fixed width 1..32 x boundary values, flag, ue(v), se(v), SEI ff-coding) up to the depth bound x 8 bit misalignments, written with EBSPWriter/bits.Writer/FixedSliceWriter and read back with EBSPReader/bits.Reader; all sequences up to the same depth of byte-aligned fixed-width values (8/16/24/32/48/64-bit unsigned and signed x 8 boundary values, byte slices, strings, zero runs) written with FixedSliceWriter and ByteWriter (identical bytes = big-endian reference) and read back with FixedSliceReader and bits.Reader. Distinct = distinct product states + distinct strings/sequences (duplicate-free enumerators)."
 	thorough := c.Tier == "thorough"
 	strLen, depth := 8, 2
 	if thorough {
 		strLen, depth = 10, 3
 		c.SetBudget(14 * 60 * 1e9)
 	}
-	c.Bound = fmt.Sprintf("closures: complete (fixpoint); strings over {00..04}: length <= %d; value-op sequences: length <= %d x 8 misalignments; MoreRbspData/trailing bits: all 2-byte streams x 16 positions", strLen, depth)
+	c.Bound = fmt.Sprintf("closures: complete (fixpoint); strings over {00..04}: length <= %d (unaligned byte strings over {00,03,80,ff}: one longer); value-op sequences: length <= %d x 8 misalignments; MoreRbspData/trailing bits: all 2-byte streams x 16 positions", strLen, depth)
 	c13WriterClosure(c)
 	c13ReaderClosure(c)
 	c13Strings(c, strLen)
+	c13Unaligned(c, strLen+1)
 	c13Trailing(c)
 	c13Values(c, depth)
+	c13FixedWidth(c, depth)
 	c.Assume("the reflected private fields (n,v,nr0 / n,v,zeroCount; pos left out and checked through its increments) are the whole state of EBSPWriter/EBSPReader: asserted at start-up from the struct field lists")
 	c.Assume("bit order is MSB-first (the meaning of f(n)/u(n) in ISO/IEC 14496-10 7.2)")
 }
@@ -738,6 +1060,18 @@ func replayC13(c *vf.Ctx, detail json.RawMessage) {
 		var ops []vOp
 		_ = json.Unmarshal(d.Ops, &ops)
 		c13RunValueSeq(c, d.Misalign, ops)
+	case "fixedwidth":
+		var ops []fwOp
+		_ = json.Unmarshal(d.Ops, &ops)
+		c13FixedWidthSeq(c, ops)
+	case "unaligned":
+		var u struct {
+			LeadBits int  `json:"lead_bits"`
+			Lead     uint `json:"lead"`
+		}
+		_ = json.Unmarshal(detail, &u)
+		x, _ := hexDecode(d.Raw)
+		c13UnalignedCase(c, u.LeadBits, u.Lead, x)
 	default:
 		fmt.Println("string/trailing cases: re-run ./vcheck C13 quick (sub-second part)")
 	}
